@@ -75,6 +75,9 @@ type airRun struct {
 	round   string
 	obs     airObs
 	mu      sync.Mutex
+	// backwards: the node's clock is set back a minute before every round of operator answers (an
+	// operator correcting the clock): operations are stamped with decreasing creation times
+	backwards bool
 	// what P's machine published per answered operation (see published()), and the operations
 	pub map[string]string
 	ops map[string]*types.Operation
@@ -229,6 +232,9 @@ func (a *airRun) record(op *types.Operation, res *types.Operation) {
 func (a *airRun) drive(r *kit.Run) error {
 	w := a.w
 	for iter := 0; iter < 200; iter++ {
+		if a.backwards {
+			world.SetClock(world.Clock().Add(-time.Minute))
+		}
 		if err := w.DrainAll(); err != nil {
 			return err
 		}
@@ -263,6 +269,10 @@ func runAir(r *kit.Run, n, t, p int, plan airPlan) airObs {
 // is interrupted: whatever a machine keeps in memory from round to round is then not what a
 // reopened machine has.
 func runAirAfter(r *kit.Run, n, t, p int, plan airPlan, prior bool) airObs {
+	return runAirOpt(r, n, t, p, plan, prior, false)
+}
+
+func runAirOpt(r *kit.Run, n, t, p int, plan airPlan, prior, backwards bool) airObs {
 	w, err := world.NewWorld(n)
 	if err != nil {
 		r.Infra("world: %v", err)
@@ -273,7 +283,7 @@ func runAirAfter(r *kit.Run, n, t, p int, plan airPlan, prior bool) airObs {
 			os.RemoveAll(a.Dir)
 		}
 	}()
-	a := &airRun{n: n, t: t, p: p, w: w, plan: plan}
+	a := &airRun{n: n, t: t, p: p, w: w, plan: plan, backwards: backwards}
 	priorRound := ""
 	priorKeyrings := map[int][2]string{}
 	keyringOf := func(i int, round string) [2]string {
@@ -500,10 +510,32 @@ func c12(tier string, args []string) int {
 		}
 		close(ch)
 		wg.Wait()
+		// the node's clock set back before every round of answers (the clock is process-wide in
+		// the harness: these ceremonies run one after the other)
+		if nt.n <= 3 || tier == "thorough" {
+			world.SetClock(world.T0.Add(3 * time.Hour))
+			refBack := runAirOpt(r, nt.n, nt.t, 0, airPlan{}, false, true)
+			if !refBack.Ready || refBack.Partial == "" {
+				r.Infra("uninterrupted ceremony with the clock set back n=%d t=%d did not complete: %s", nt.n, nt.t, refBack.Detail)
+			}
+			for p := 0; p < nt.n && !r.TimeUp(); p++ {
+				for _, pl := range plans {
+					if len(pl.CleanAfter) != 1 {
+						continue // clean restarts after each operation, and a kill followed by a restart
+					}
+					world.SetClock(world.T0.Add(3 * time.Hour))
+					got := runAirOpt(r, nt.n, nt.t, p, pl, false, true)
+					cmpAirPK(r, nt, p, pl, refBack, got, "node-clock-set-back-between-the-steps:")
+					evals++
+					distinct++
+				}
+			}
+			world.SetClock(world.T0)
+		}
 	}
 	r.Set("evaluations", evals)
 	r.Set("distinct_nontrivial", distinct)
-	r.Set("rule", "every (n,t) x participant x stop plan (clean restart after each of the 5 operations, kill before/after every database write inside each key-generation operation, pairs of restarts, kill + later restart) runs a complete ceremony + signing batch with real nodes and machines; the stopped machine is reopened from its database and replayed once; the same single stops and kills in the SECOND ceremony of machines that completed an earlier one in the same process lifetime (n<=3; all in the thorough tier), where the earlier round's key material must also stay what it was; compared with the uninterrupted run: long-term key, commitments, responses, announced key/polynomial, every machine's final polynomial and share, the partial signature of a fixed batch")
+	r.Set("rule", "every (n,t) x participant x stop plan (clean restart after each of the 5 operations, kill before/after every database write inside each key-generation operation, pairs of restarts, kill + later restart) runs a complete ceremony + signing batch with real nodes and machines; the stopped machine is reopened from its database and replayed once; the same single stops and kills in the SECOND ceremony of machines that completed an earlier one in the same process lifetime (n<=3; all in the thorough tier), where the earlier round's key material must also stay what it was; clean restarts (and kill + restart) with the node's clock set back a minute before every round of answers, so that operations carry decreasing creation times; compared with the uninterrupted run: long-term key, commitments, responses, announced key/polynomial, every machine's final polynomial and share, the partial signature of a fixed batch")
 	return finish(r)
 }
 
